@@ -192,10 +192,36 @@ def expr(e, ind=0):
     raise Unrenderable("expression kind " + k)
 
 
+def con_arm(a, ind=0):
+    if a["a"] == "shape":
+        x = a["x"]
+        if x["e"] == "bin" and x["op"] != "dot":
+            raise Unrenderable("a constraint alternative is a non-operator expression")
+        return expr(x, ind)
+
+    def bound(xs):
+        if not xs:
+            return ""
+        x = xs[0]
+        return expr(x, ind) if x["e"] in ("lit", "sym") else "(" + expr(x, ind) + ")"
+    return "in %s..%s" % (bound(a["lo"]), bound(a["hi"]))
+
+
+def con_text(c, ind=0):
+    """what follows `::` - a constraint expression, or a plain (non-operator) example expression"""
+    if c["e"] == "con":
+        return " | ".join(con_arm(a, ind) for a in c["arms"])
+    if c["e"] == "bin" and c["op"] != "dot":
+        raise Unrenderable("an example after :: is a non-operator expression")
+    return expr(c, ind)
+
+
 def stmt(s, ind=0):
     k = s["s"]
     if k == "let":
         return "let %s = %s;" % (nm(s["nm"]), expr(s["x"], ind))
+    if k == "clet":
+        return "let %s :: %s = %s;" % (nm(s["nm"]), con_text(s["con"], ind), expr(s["x"], ind))
     if k == "expr":
         return "%s;" % expr(s["x"], ind)
     if k == "assert":
@@ -273,6 +299,8 @@ def norm_ast_spec(e):
         s = e["s"]
         if s == "let":
             return ("let", nm(e["nm"]), norm_ast_spec(e["x"]))
+        if s == "clet":
+            return ("clet", nm(e["nm"]), norm_ast_spec(e["x"]), norm_ast_spec(e["con"]))
         return (s, norm_ast_spec(e["x"]))
     if k == "lit":
         return ("lit", norm_val_spec(e["v"]))
@@ -311,6 +339,10 @@ def norm_ast_spec(e):
         return ("fmt", "single", None, tuple(norm_ast_spec(a) for a in e["args"]))
     if k == "bin":
         return ("bin", e["op"], norm_ast_spec(e["l"]), norm_ast_spec(e["r"]))
+    if k == "con":
+        return ("con", tuple(("shape", norm_ast_spec(a["x"])) if a["a"] == "shape" else
+                             ("range", tuple(norm_ast_spec(x) for x in a["lo"]), tuple(norm_ast_spec(x) for x in a["hi"]))
+                             for a in e["arms"]))
     raise ValueError("spec ast kind " + str(k))
 
 
@@ -320,6 +352,8 @@ def norm_ast_impl(e):
     if k is None:
         s = e["s"]
         if s == "let":
+            if e.get("con"):
+                return ("clet", e["nm"], norm_ast_impl(e["x"]), norm_ast_impl(e["con"][0]))
             return ("let", e["nm"], norm_ast_impl(e["x"]))
         return (s, norm_ast_impl(e["x"]))
     if k == "lit":
@@ -359,4 +393,8 @@ def norm_ast_impl(e):
         return ("fmt", "single", None, tuple(norm_ast_impl(a) for a in e["args"]))
     if k == "bin":
         return ("bin", e["op"], norm_ast_impl(e["l"]), norm_ast_impl(e["r"]))
+    if k == "constraint":
+        return ("con", tuple(("shape", norm_ast_impl(a["x"])) if a["a"] == "shape" else
+                             ("range", tuple(norm_ast_impl(x) for x in a["lo"]), tuple(norm_ast_impl(x) for x in a["hi"]))
+                             for a in e["arms"]))
     return ("other", k)
